@@ -301,7 +301,7 @@ ALPHABET = "AVCNLHPXSEMRUITDOFWY:/.0123456789 acnlx_-\t"
 
 def edit(s, rng, ver):
     """one edit of the kinds named in C04"""
-    kind = rng.randrange(14)
+    kind = rng.randrange(18)
     fields = s.split("/")
     if kind == 0 and s:  # delete a character
         i = rng.randrange(len(s))
@@ -332,7 +332,8 @@ def edit(s, rng, ver):
         i = rng.randrange(len(s))
         return s[:i] + s[i].swapcase() + s[i + 1 :]
     if kind == 8:  # padding
-        return rng.choice([" " + s, s + " ", s + "/", "/" + s, s + "\n", "\t" + s, s + "//"])
+        return rng.choice([" " + s, s + " ", s + "/", "/" + s, s + "\n", "\t" + s, s + "//", s + "\r", s + "\r\n", "\x0b" + s,
+                           s + "\x0c", "\u00a0" + s, s + "\u2003", "\ufeff" + s, s + "\x1c", "\x1f" + s, s + "\x00", s + "\u200b"])
     if kind == 9:  # wrong / other prefix
         body = s
         for p in sum(PREFIX.values(), []):
@@ -360,6 +361,27 @@ def edit(s, rng, ver):
         i = rng.randrange(len(fields))
         fields[i] = fields[i].split(":")[0] + ":" + VOCAB[ver]["nd"]
         return "/".join(fields)
+    if kind == 14 and fields:  # the same metric again with ANOTHER of its legal values (conflicting duplicate)
+        i = rng.randrange(len(fields))
+        m = fields[i].split(":")[0]
+        vals = dict(VOCAB[ver]["vocab"]).get(m)
+        if vals:
+            j = rng.randrange(len(fields) + 1)
+            return "/".join(fields[:j] + ["%s:%s" % (m, rng.choice(vals))] + fields[j:])
+    if kind == 15 and len(fields) > 1:  # white space around a separator, inside a field
+        i = rng.randrange(len(fields))
+        w = rng.choice([" ", "\t", "\n", "\u00a0"])
+        fields[i] = rng.choice([fields[i].replace(":", ":" + w), fields[i].replace(":", w + ":"), fields[i] + w, w + fields[i]])
+        return "/".join(fields)
+    if kind == 16:  # the whole vector twice / a second prefix / other separators
+        return rng.choice([s + "/" + s, s + s, s.replace("/", "\\"), s.replace("/", " "), s.replace("/", ","), s.replace(":", "="),
+                           s.replace("/", "/", 1).replace("/", "//", 1), s.lower(), s.upper(), s.replace("/", ";")])
+    if kind == 17 and len(fields) > 1:  # an unknown metric with a plausible value / a metric of this version with an unknown value
+        i = rng.randrange(len(fields) + 1)
+        m, vals = rng.choice(VOCAB[ver]["vocab"])
+        f = rng.choice([m + "X:" + rng.choice(vals), "Z" + m + ":" + rng.choice(vals), m + ":" + rng.choice(vals) + "X",
+                        m + ":", m, m.lower() + ":" + rng.choice(vals), m + ":" + rng.choice(vals).lower()])
+        return "/".join(fields[:i] + [f] + fields[i:])
     return s + rng.choice(ALPHABET)
 
 
